@@ -439,3 +439,39 @@ Proof.
   destruct (Z.eqb_spec tm i) as [->|E]; [|reflexivity].
   rewrite (pend_msgs_notin id i a Hna). reflexivity.
 Qed.
+
+(** ** [expected] read back: the defining equations of [deliver], and source order / at most once *)
+
+Lemma deliver_spec : forall i id,
+  deliver i (MkFeature id KOther) = Some GOrig
+  /\ (forall o, deliver i (MkFeature id (KPolygon o))
+                = match lookup i o with
+                  | [] => None                      (* dropped: nothing reaches the target *)
+                  | [p] => Some (GPoly p)           (* kept: that polygon *)
+                  | ps => Some (GMulti ps)          (* split: one multipolygon of all of them, in order *)
+                  end)
+  /\ (forall parts, deliver i (MkFeature id (KMulti parts))
+                    = match flat_map (lookup i) parts with
+                      | [] => None
+                      | ps => Some (GMulti ps)      (* the parts' results for i, concatenated in part order *)
+                      end).
+Proof.
+  intros i id. split; [reflexivity|]. split.
+  - intros o. unfold deliver. cbn [f_kind]. unfold geom_of_polys. destruct (lookup i o) as [|p [|q r]]; reflexivity.
+  - intros parts. reflexivity.
+Qed.
+
+Lemma expected_of_cons_base : forall i f r, expected_of i (f :: r) = feat_msgs i f ++ expected_of i r.
+Proof. reflexivity. Qed.
+
+Definition delivered (i : tmid) (f : feature) : bool :=
+  match deliver i f with Some _ => true | None => false end.
+
+(** the features a target gets are the source features that have a geometry for it: in source order,
+    each one once *)
+Lemma expected_ids : forall i src, map fst (expected_of i src) = map f_id (filter (delivered i) src).
+Proof.
+  intros i. induction src as [|f r IH]; [reflexivity|].
+  rewrite expected_of_cons_base. unfold delivered at 1, feat_msgs. cbn [filter].
+  destruct (deliver i f); cbn [map app fst]; now rewrite IH.
+Qed.
